@@ -56,6 +56,12 @@ fn complete_payment(seed: u64) {
             let p = to_pending(&w, &mut rng);
             let rev = atoms::atoms_of(w.merchant.revocation_commitment_parameters());
             let key = atoms::atoms_of(w.merchant.signing_keypair());
+            if idx == 0 && want {
+                // "an accepted pair contains the preimage of the old state's lock" rests on the commitment being binding:
+                // the merchant's revocation-commitment generators must be independent elements
+                let gens: Vec<(String, Scalar)> = rev.iter().map(|a| (a.path.clone(), Scalar::from_term(a.term()))).collect();
+                independent_generators("C05 merchant's revocation commitment parameters", "C05 revocation-commitment-not-binding", &eng::axioms(), &gens);
+            }
             // candidate pair: arbitrary (lock, secret, index) that passes the pair's own decode-time validation
             let hl = atoms::layout(&p.lockmsg.revocation_pair);
             let (mut cb, cat) = atoms::symbolize_layout(&hl, "cand");
